@@ -181,6 +181,8 @@ def coords_spec(rng, p, frame, n):
         else:
             xs = [pix_v(rng, p) for _ in range(n)]
             ys = [pix_v(rng, p) for _ in range(n)]
+        if n >= 4 and rng.random() < 0.15:
+            xs[-1], ys[-1] = xs[0], ys[0]          # an explicitly closed ring (last vertex repeats the first, as GIS tools write it)
         if all(isinstance(v, int) for v in xs + ys):
             return S.pix(S.arr_spec(np.array(xs, dtype='int64')), S.arr_spec(np.array(ys, dtype='int64')))
         return S.pix(S.arr_spec(np.array(xs, dtype=float)), S.arr_spec(np.array(ys, dtype=float)))
@@ -191,6 +193,8 @@ def coords_spec(rng, p, frame, n):
     else:
         lons = [lon_v(rng, p) for _ in range(n)]
         lats = [lat_v(rng, p) for _ in range(n)]
+    if n >= 4 and rng.random() < 0.15:
+        lons[-1], lats[-1] = lons[0], lats[0]
     return S.held(S.sky(S.arr_spec(np.array(lons, dtype=float)), S.arr_spec(np.array(lats, dtype=float)), frame), rng)
 
 
